@@ -113,7 +113,7 @@ type evCfg struct {
 	CoolS     int              `json:"cool_s"`
 	CollectS  int              `json:"collect_s"`
 	CapMi     int64            `json:"cap_milli"`
-	Alloc     map[string]int64 `json:"alloc"` // "cpu" | "batch" | "mid" -> milli (absent key = resource not on the node)
+	Alloc     map[string]int64 `json:"alloc"`    // "cpu" | "batch" | "mid" -> milli (absent key = resource not on the node)
 	BELimit   int64            `json:"be_limit"` // the real CPU limit of the BE tier (set by the suppress strategy), milli
 	Thr       evThr            `json:"thr"`
 	SysUsed   int64            `json:"sys_used"`
@@ -162,7 +162,7 @@ func evGenThr(g *sim.Rng) evThr {
 		}
 	}
 	if !g.Bool(0.04) {
-		t.SatLower = evP64(g.PickI64(20, 40, 50, 60, 60, 70)) // 70: invalid (> 60)
+		t.SatLower = evP64(g.PickI64(20, 40, 50, 60, 60, 70))  // 70: invalid (> 60)
 		t.SatUpper = evP64(g.PickI64(60, 70, 80, 90, 90, 100)) // 100: invalid
 		if g.Bool(0.03) {
 			t.SatUpper = evP64(*t.SatLower - 10)
@@ -482,8 +482,8 @@ func evSeriesKey(kind string, props map[string]string) string {
 func (m *evMetricCache) put(meta metriccache.MetricMeta, t time.Time, v float64) {
 	k := evSeriesKey(meta.GetKind(), meta.GetProperties())
 	s := append(m.series[k], evSample{t.UnixMilli(), v})
-	if len(s) > 8 {
-		s = append([]evSample(nil), s[len(s)-4:]...)
+	if len(s) > 320 {
+		s = append([]evSample(nil), s[len(s)-160:]...)
 	}
 	m.series[k] = s
 }
@@ -590,6 +590,7 @@ type evSim struct {
 	start         time.Time
 	lastCollect   time.Time
 	stallLeft     int
+	beLimit       int64 // milli
 	nodeSampleAt  time.Time
 	nodeSampleV   int64
 	hasNodeSample bool
@@ -982,40 +983,72 @@ func (s *evSim) nodeUsed() int64 {
 	return t
 }
 
-var evNodeMeta, _ = metriccache.NodeMemoryUsageMetric.BuildQueryMeta(nil)
+var evNodeMeta, _ = metriccache.NodeCPUUsageMetric.BuildQueryMeta(nil)
+var evBEUsageMeta, _ = metriccache.NodeBEMetric.BuildQueryMeta(metriccache.MetricPropertiesFunc.NodeBE(string(metriccache.BEResourceCPU), string(metriccache.BEResourceAllocationUsage)))
+var evBERequestMeta, _ = metriccache.NodeBEMetric.BuildQueryMeta(metriccache.MetricPropertiesFunc.NodeBE(string(metriccache.BEResourceCPU), string(metriccache.BEResourceAllocationRequest)))
+var evBELimitMeta, _ = metriccache.NodeBEMetric.BuildQueryMeta(metriccache.MetricPropertiesFunc.NodeBE(string(metriccache.BEResourceCPU), string(metriccache.BEResourceAllocationRealLimit)))
 
-// collectorStep: the metrics advisor publishes node and pod memory usage at every collect interval (aligned to the
-// agent's start); only the latest instant <= now matters for the "last" aggregation used by memory eviction.
+// beTier: what the BE resource collector reports: usage and batch-cpu requests of the running pods labelled BE (milli)
+func (s *evSim) beTier() (used, req int64) {
+	for _, n := range s.order {
+		m := s.pods[n]
+		if !m.present || !s.running(m) || m.spec.QoS != "BE" {
+			continue
+		}
+		used += m.used
+		if q, ok := m.obj.Spec.Containers[0].Resources.Requests[apiext.BatchCPU]; ok {
+			req += q.Value()
+		}
+	}
+	return
+}
+
+// collectorStep: the metrics advisor publishes node cpu usage (cores), the BE tier's usage / request / real limit
+// (milli) and every running pod's cpu usage (cores) at every collect interval, aligned to the agent's start. The
+// node-level series are published for every instant (the strategies average them over a window); of the pod series
+// only the latest instant matters ("last" aggregation).
 func (s *evSim) collectorStep(now time.Time) {
 	ci := time.Duration(s.cfg.CollectS) * time.Second
 	k := now.Sub(s.start) / ci
-	t := s.start.Add(k * ci)
-	if !t.After(s.lastCollect) {
+	last := s.start.Add(k * ci)
+	if !last.After(s.lastCollect) {
 		return
 	}
-	missed := int(t.Sub(s.lastCollect) / ci)
-	s.lastCollect = t
-	if s.stallLeft > 0 {
-		if s.stallLeft >= missed {
-			s.stallLeft -= missed
-			s.r.Probe("collector-stalled")
-			return
-		}
-		s.stallLeft = 0
+	first := s.lastCollect.Add(ci)
+	if s.lastCollect.Before(s.start) {
+		first = s.start
 	}
-	s.mc.put(evNodeMeta, t, float64(s.nodeUsed()))
-	s.hasNodeSample, s.nodeSampleAt, s.nodeSampleV = true, t, s.nodeUsed()
+	s.lastCollect = last
+	beUsed, beReq := s.beTier()
+	published := false
+	for t := first; !t.After(last); t = t.Add(ci) {
+		if s.stallLeft > 0 {
+			s.stallLeft--
+			s.r.Probe("collector-stalled")
+			published = false
+			continue
+		}
+		published = true
+		s.mc.put(evNodeMeta, t, float64(s.nodeUsed())/1000)
+		s.mc.put(evBEUsageMeta, t, float64(beUsed))
+		s.mc.put(evBERequestMeta, t, float64(beReq))
+		s.mc.put(evBELimitMeta, t, float64(s.beLimit))
+		s.hasNodeSample, s.nodeSampleAt, s.nodeSampleV = true, t, s.nodeUsed()
+	}
+	if !published {
+		return // the latest instant was lost
+	}
 	for _, n := range s.order {
 		m := s.pods[n]
 		if !m.present || !s.running(m) || m.spec.NoMetric {
 			continue
 		}
-		meta, err := metriccache.PodMemUsageMetric.BuildQueryMeta(metriccache.MetricPropertiesFunc.Pod(m.uid))
+		meta, err := metriccache.PodCPUUsageMetric.BuildQueryMeta(metriccache.MetricPropertiesFunc.Pod(m.uid))
 		if err != nil {
 			s.r.HarnessFail("query meta: %v", err)
 		}
-		s.mc.put(meta, t, float64(m.used))
-		m.hasSample, m.sampleAt, m.sampleV = true, t, m.used
+		s.mc.put(meta, last, float64(m.used)/1000)
+		m.hasSample, m.sampleAt, m.sampleV = true, last, m.used
 	}
 }
 
@@ -1051,7 +1084,7 @@ type evView struct {
 	reqRes   corev1.ResourceName
 	active   bool
 	beReq    int64 // batch-cpu requested (whatever the pod's class), the denominator of the BE strategy's usage ratio
-	pendCert bool // evicted (acknowledged) by this agent instance less than the TTL ago and still on the node
+	pendCert bool  // evicted (acknowledged) by this agent instance less than the TTL ago and still on the node
 	pendPoss bool
 }
 
@@ -1353,6 +1386,7 @@ func (s *evSim) checkRound(now time.Time, views map[string]*evView, tasks []*evT
 	var tdesc []string
 	for _, t := range tasks {
 		byF[t.feature] = t
+		r.Probe("task:" + t.feature)
 		var ds []string
 		for _, rn := range evSortedRes(t.target) {
 			ds = append(ds, fmt.Sprintf("%s=%d", rn, t.target[rn]))
@@ -1488,6 +1522,7 @@ func (s *evSim) checkRound(now time.Time, views map[string]*evView, tasks []*evT
 		}
 		perTask[c.feature] = append(perTask[c.feature], v)
 		attempted[c.pod] = true
+		r.Probe("evict-call:" + c.feature)
 		if c.ret {
 			if !c.api {
 				// the executor answered "evicted" without an API request although the model does not know the pod as evicted
@@ -1532,39 +1567,67 @@ func (s *evSim) checkRound(now time.Time, views map[string]*evView, tasks []*evT
 			if !useful {
 				continue
 			}
-			s.fail("stops-early", evKind(t.feature), clsTimes1000, "%s\nthe round ends with %s short of its target (accumulated[%s]=%v, short in %v) although candidate %s (%s) was never tried",
+			s.fail("stops-early", evKind(t.feature), "", "%s\nthe round ends with %s short of its target (accumulated[%s]=%v, short in %v) although candidate %s (%s) was never tried",
 				hist, t.feature, t.typ, evAccStr(hi[t.typ]), short, n, evOrd(q))
 		}
 	}
 }
 
 // checkTriggers: a release target may only exist while the configured threshold is exceeded (the amount of the
-// target is taken as computed; only its existence is checked against the documented meaning of the thresholds).
+// target is taken as computed; only its existence is checked against the documented meaning of the thresholds, and
+// leniently: the strategies average over a window, the check only asks that some sample of the window qualifies).
 func (s *evSim) checkTriggers(now time.Time, views map[string]*evView, tasks []*evTask, hist string) {
 	t := s.thr
-	capB := s.cfg.CapMi * evMi
-	win := 2 * time.Duration(s.cfg.CollectS) * time.Second
+	win := time.Duration(s.cfg.CollectS) * time.Second
+	if t.Window != nil && time.Duration(*t.Window)*time.Second > win {
+		win = time.Duration(*t.Window) * time.Second
+	}
+	inWindow := func(meta metriccache.MetricMeta) []evSample {
+		var out []evSample
+		for _, x := range s.mc.series[evSeriesKey(meta.GetKind(), meta.GetProperties())] {
+			if x.t >= now.Add(-win).UnixMilli() && x.t <= now.UnixMilli() {
+				out = append(out, x)
+			}
+		}
+		return out
+	}
 	for _, task := range tasks {
 		kind := evKind(task.feature)
 		switch task.feature {
-		case fBE, fUsed:
-			ok := t.Enable && t.MemThr != nil && *t.MemThr >= 0
+		case fUsed:
+			ok := t.Enable && t.CPUThr != nil && *t.CPUThr >= 0 && t.PrioThr != nil
 			if ok {
-				lower := *t.MemThr - 2 // documented default: threshold - 2
-				if t.MemLower != nil {
-					lower = *t.MemLower
+				lower := *t.CPUThr - 2 // documented default: threshold - 2
+				if t.CPULower != nil {
+					lower = *t.CPULower
 				}
-				ok = lower < *t.MemThr
+				ok = lower < *t.CPUThr
 			}
-			if ok && task.feature == fUsed {
-				ok = t.PrioThr != nil
+			max := -1.0
+			for _, x := range inWindow(evNodeMeta) {
+				if x.v > max {
+					max = x.v
+				}
 			}
 			if ok {
-				ok = s.hasNodeSample && !s.nodeSampleAt.Before(now.Add(-win)) && s.nodeSampleV*100 >= *t.MemThr*capB
+				ok = max >= 0 && max*1000*100 >= float64(*t.CPUThr*s.cfg.CapMi)
 			}
 			if !ok {
-				s.fail("target-without-pressure", kind, "", "%s\n%s has a release target although its threshold is not exceeded or its configuration is invalid (node usage sample %d of %d, fresh=%v, thresholds %s)",
-					hist, task.feature, s.nodeSampleV, capB, s.hasNodeSample && !s.nodeSampleAt.Before(now.Add(-win)), s.thrString())
+				s.fail("target-without-pressure", kind, "", "%s\n%s has a release target although its threshold is not exceeded by any sample of the window or its configuration is invalid (highest node usage sample %.3f cores of %d milli, thresholds %s)",
+					hist, task.feature, max, s.cfg.CapMi, s.thrString())
+			}
+		case fBE:
+			ok := t.Enable && t.SatLower != nil && t.SatUpper != nil && *t.SatLower <= *t.SatUpper
+			if ok {
+				ok = false
+				for _, x := range inWindow(evBERequestMeta) {
+					if x.v > 0 {
+						ok = true
+					}
+				}
+			}
+			if !ok {
+				s.fail("target-without-pressure", kind, "", "%s\n%s has a release target although the BE tier requests nothing in the window or its configuration is invalid (thresholds %s)", hist, task.feature, s.thrString())
 			}
 		case fAlloc:
 			ok := t.Enable && t.AllocThr != nil && *t.AllocThr >= 0 && t.AllocLower != nil && *t.AllocLower < *t.AllocThr && t.AllocPrioThr != nil && *t.AllocPrioThr <= 7999
@@ -1583,9 +1646,9 @@ func (s *evSim) checkTriggers(now time.Time, views map[string]*evView, tasks []*
 						req += v.req
 					}
 				}
-				if req*100 <= *t.AllocThr*aq.Value() {
+				if req*100 <= *t.AllocThr*evVal(rn, aq) {
 					s.fail("target-without-pressure", kind, "", "%s\n%s has a release target for %s although the requests of the pods under its priority threshold (%d) do not exceed %d%% of the allocatable (%d)",
-						hist, task.feature, rn, req, *t.AllocThr, aq.Value())
+						hist, task.feature, rn, req, *t.AllocThr, evVal(rn, aq))
 				}
 			}
 		}
@@ -1602,9 +1665,6 @@ const (
 	// a pod already evicted and still terminating contributes to a task's target but the task meets a candidate that
 	// is not evicted before it meets that pod (or never meets it: the pod is not one of the task's candidates)
 	clsPendingBehind = "pending-release-behind-candidate"
-	// a used-memory target while a pod with non-zero usage is evicted (acknowledged), or counted as already evicted and
-	// still terminating, from the candidate list of a priority-threshold task (MemoryEvict / MemoryAllocatableEvict)
-	clsTimes1000 = "usage-counted-times-1000"
 	// an allocatable task whose target names a resource other than the batch/mid ones: no pod is ever counted as
 	// releasing it
 	clsNativeTarget = "allocatable-target-on-native-resource"
@@ -1620,13 +1680,7 @@ func (s *evSim) classify(views map[string]*evView, tasks []*evTask) []string {
 			vs = append(vs, v)
 		}
 	}
-	hasUsedTarget := false
-	for _, t := range tasks {
-		if t.typ == tUsed {
-			hasUsedTarget = true
-		}
-	}
-	beEv, nothing, behind, times := false, false, false, false
+	beEv, nothing, behind := false, false, false
 	for _, t := range tasks {
 		var cands []*evView
 		for _, v := range vs {
@@ -1668,18 +1722,6 @@ func (s *evSim) classify(views map[string]*evView, tasks []*evTask) []string {
 			}
 		}
 	}
-	for _, c := range s.calls {
-		if v := views[c.pod]; v != nil && c.ret && c.feature != fBE && hasUsedTarget && v.usedHi > 0 {
-			times = true
-		}
-	}
-	for _, t := range tasks {
-		for _, v := range vs {
-			if t.feature != fBE && hasUsedTarget && v.pendPoss && v.usedHi > 0 && s.candidate(v, t.feature) >= 1 {
-				times = true // its pending release is counted from the same list entry
-			}
-		}
-	}
 	for _, t := range tasks {
 		if t.feature != fAlloc {
 			continue
@@ -1699,9 +1741,6 @@ func (s *evSim) classify(views map[string]*evView, tasks []*evTask) []string {
 	}
 	if behind {
 		out = append(out, clsPendingBehind)
-	}
-	if times {
-		out = append(out, clsTimes1000)
 	}
 	return out
 }
@@ -1780,7 +1819,8 @@ func evI32(p *int32) string {
 
 func (s *evSim) thrString() string {
 	t := s.thr
-	return fmt.Sprintf("enable=%v mem=%s/%s alloc=%s/%s prioThr=%s allocPrioThr=%s", t.Enable, evI64(t.MemThr), evI64(t.MemLower), evI64(t.AllocThr), evI64(t.AllocLower), evI32(t.PrioThr), evI32(t.AllocPrioThr))
+	return fmt.Sprintf("enable=%v cpu=%s/%s alloc=%s/%s sat=%s/%s beUsage=%s window=%s policy=%q prioThr=%s allocPrioThr=%s", t.Enable, evI64(t.CPUThr), evI64(t.CPULower),
+		evI64(t.AllocThr), evI64(t.AllocLower), evI64(t.SatLower), evI64(t.SatUpper), evI64(t.BEUsageThr), evI64(t.Window), t.Policy, evI32(t.PrioThr), evI32(t.AllocPrioThr))
 }
 
 // ---------------------------------------------------------------- execution
@@ -1812,6 +1852,7 @@ func (evEngine) Execute(r *sim.Run) {
 	s.lastCollect = s.start.Add(-time.Nanosecond)
 	s.thr = s.cfg.Thr
 	s.sys = s.cfg.SysUsed * evMi
+	s.beLimit = s.cfg.BELimit
 	for _, p := range s.cfg.Pods {
 		s.addPod(p, s.start)
 	}
@@ -1819,8 +1860,8 @@ func (evEngine) Execute(r *sim.Run) {
 	s.buildSLO()
 	s.startAgent()
 	s.collectorStep(s.start)
-	r.Sample("features=%v interval=%ds cool=%ds collect=%ds cap=%dMi alloc=%v thr{%s} pods=%d sys=%dMi faults=%v@%.2f",
-		s.cfg.Features, s.cfg.IntervalS, s.cfg.CoolS, s.cfg.CollectS, s.cfg.CapMi, s.cfg.Alloc, s.thrString(), len(s.cfg.Pods), s.cfg.SysUsed, r.Plan.Faults, r.Plan.FaultRate)
+	r.Sample("features=%v interval=%ds cool=%ds collect=%ds cap=%dm alloc=%v beLimit=%dm thr{%s} pods=%d sys=%dm faults=%v@%.2f",
+		s.cfg.Features, s.cfg.IntervalS, s.cfg.CoolS, s.cfg.CollectS, s.cfg.CapMi, s.cfg.Alloc, s.cfg.BELimit, s.thrString(), len(s.cfg.Pods), s.cfg.SysUsed, r.Plan.Faults, r.Plan.FaultRate)
 
 	interval := time.Duration(s.cfg.IntervalS) * time.Second
 	for _, op := range ops {
@@ -1856,6 +1897,13 @@ func (evEngine) Execute(r *sim.Run) {
 			}
 			s.sys = v
 			r.Event("sys %d", v/evMi)
+		case "belimit":
+			if op.V < 0 {
+				r.OpSkipped()
+				continue
+			}
+			s.beLimit = op.V
+			r.Event("belimit %d", op.V)
 		case "addpod":
 			if op.Spec == nil || s.pods[op.Spec.Name] != nil {
 				r.OpSkipped()
